@@ -27,6 +27,21 @@ UNITS = ["ps", "ns", "us", "ms", "s", "m"]
 ERR = {"ValueError": "EValue", "TypeError": "EType", "UFuncTypeError": "EType", "IndexError": "EIndex",
        "AttributeError": "EAttr", "ZeroDivisionError": "EZero"}
 INPLACE = ("ta_set", "ut_iop", "ut_imul", "ts_iop")     # documented in-place on their target x
+# ways of deriving a new object through numpy / the copy module rather than through .copy():
+# name -> (shift of the values, or None for a view; callable)
+DERIVE = {
+    "copy_copy": (0, lambda x: __import__("copy").copy(x)),
+    "deepcopy": (0, lambda x: __import__("copy").deepcopy(x)),
+    "np_copy_subok": (0, lambda x: np.copy(x, subok=True)),
+    "np_array_subok": (0, lambda x: np.array(x, subok=True)),
+    "add0": (0, lambda x: x + 0),
+    "sub1": (-1, lambda x: x - 1),
+    "np_add0": (0, lambda x: np.add(x, 0)),
+    "view": (None, lambda x: x.view()),
+    "slice_all": (None, lambda x: x[:] if x.ndim else x[...]),
+}
+DERIVE_FOR = {"uniform": list(DERIVE), "time": ["copy_copy", "deepcopy", "np_copy_subok", "np_array_subok", "view", "slice_all"],
+              "series": ["deepcopy"]}
 
 
 def factor(u):
@@ -86,6 +101,24 @@ def attr_objs(o):
     if isinstance(o, (ts.UniformTime, ts.TimeSeries)):
         return [getattr(o, a, None) for a in ("t0", "sampling_interval", "duration")]
     return []
+
+
+def attr_values_snap(o):
+    """what remains observable of an object whose samples legitimately moved (it shares memory with the
+    target of an in-place call: numpy view semantics): class, shape, dtype, unit and the VALUES of its
+    attribute objects"""
+    import nitime.timeseries as ts
+    if isinstance(o, ts.TimeSeriesBase):
+        return ("series-attrs", np.asarray(o.data).shape, str(np.asarray(o.data).dtype),
+                tuple(bytes_snap(a) for a in attr_objs(o)), o.time_unit, float(o.sampling_rate))
+    if isinstance(o, np.ndarray):
+        base = ("nd-attrs", type(o).__name__, o.shape, o.strides, str(o.dtype))
+        if isinstance(o, ts.TimeInterface):
+            base += (o.time_unit, int(o._conversion_factor))
+        if isinstance(o, ts.UniformTime):
+            base += (tuple(bytes_snap(a) for a in attr_objs(o)), float(o.sampling_rate))
+        return base
+    return bytes_snap(o)
 
 
 def bytes_snap(o):
@@ -184,6 +217,9 @@ def step_coq(st):
         return "(SUtImul %s %s)" % (nlit(st["x"]), operand_coq(st["o"]))
     if op == "copy":
         return "(SCopy %s)" % nlit(st["x"])
+    if op == "derive":
+        k = DERIVE[st["how"]][0]
+        return "(SDerive %s %s)" % ("None" if k is None else "(Some %s)" % zlit(k), nlit(st["x"]))
     if op == "ts_op":
         return "(STsOp %s %s %s)" % (st["f"], nlit(st["x"]), operand_coq(st["o"]))
     if op == "ts_iop":
@@ -235,6 +271,8 @@ def do_step(env, st):
         return None, False
     if op == "copy":
         return x.copy(), False
+    if op == "derive":
+        return DERIVE[st["how"]][1](x), False
     if op == "ts_op":
         v = operand_obj(env, st["o"])
         return {"FAdd": lambda: x + v, "FSub": lambda: x - v, "FMul": lambda: x * v}[st["f"]](), False
@@ -286,6 +324,12 @@ def run_history(h):
     for si, st in enumerate(h["steps"]):
         before = [bytes_snap(o) for o in env]
         kdim = np.ndim(env[st["k"]]) if st.get("k") is not None else None
+        # objects that share sample memory with the target of an in-place call (views): their samples
+        # move with the target's; everything else about them (attribute VALUES included) must not
+        tgt = main_array(env[st["x"]]) if st["op"] in INPLACE else None
+        aliased = [tgt is not None and i != st["x"] and main_array(o) is not None and np.shares_memory(main_array(o), tgt)
+                   for i, o in enumerate(env)]
+        before_attr = [attr_values_snap(o) if al else None for o, al in zip(env, aliased)]
         try:
             r, opq = do_step(env, st)
             exc = None
@@ -298,6 +342,8 @@ def run_history(h):
             (kinds[st["x"]] if st.get("k") is None else "Sk-%dd" % kdim)
         for i, (b, a) in enumerate(zip(before, after)):
             if b == a or i == target:
+                continue
+            if aliased[i] and attr_values_snap(env[i]) == before_attr[i]:
                 continue
             role = "operand" if ov == i else ("target" if i == st["x"] else "bystander")
             en = type(exc).__name__ if exc is not None else None
@@ -416,6 +462,9 @@ def g_rows():
     for nm, subj in (("TimeArray", tarr), ("UniformTime", uni), ("TimeSeries1d", ser1), ("TimeSeries2d", ser2),
                      ("ndarray", ops["arr_float64"])):
         rows.append(("copy/%s" % nm, {"init": [subj], "steps": [{"op": "copy", "x": 0}]}))
+    for nm, subj, kind in (("TimeArray", tarr, "time"), ("UniformTime", uni, "uniform"), ("TimeSeries1d", ser1, "series")):
+        for how in DERIVE_FOR[kind]:
+            rows.append(("derive/%s/%s" % (nm, how), {"init": [subj], "steps": [{"op": "derive", "how": how, "x": 0}]}))
     a1 = {"k": "arr", "dt": "float64", "sh": [8], "d": [3, 1, 4, 1, 5, 9, 2, 6]}
     a2 = {"k": "arr", "dt": "float64", "sh": [2, 4], "d": [3, 1, 4, 1, 5, 9, 2, 6]}
     a3 = {"k": "arr", "dt": "float64", "sh": [2, 2, 2], "d": [3, 1, 4, 1, 5, 9, 2, 6]}
@@ -625,6 +674,13 @@ def gen_history(rng):
                 steps.append(st)
             else:
                 steps.append({"op": "copy", "x": 0, "_res": True})
+    # half of the copies are made through numpy / the copy module instead of .copy()
+    kind = {"ta": "time", "ut": "uniform", "ts": "series"}.get(theme)
+    if kind:
+        for st in steps:
+            if st["op"] == "copy" and rng.random() < 0.55:
+                st["op"] = "derive"
+                st["how"] = rng.choice(DERIVE_FOR[kind])
     # resolve the targets of the ut / ts themes: any already existing object of the right class
     if theme in ("ut", "ts"):
         holders = [0]            # variables holding a uniform axis / a series
